@@ -128,6 +128,9 @@ def random_keys(seed, tier):
     for mode in ["off", "no_repeat", "interrupt", "retrigger"]:
         cfg = factory_keyboard_cfg(mode)
         cfg["vel"] = rng.choice([1, 37, 64, 100, 127])
+        # "the configured defaults are the initial state"
+        cfg["dOct"], cfg["dSemi"] = rng.choice([0, 0, -2, 3]), rng.choice([0, 0, -5, 7])
+        cfg["dChan"], cfg["dMap"] = rng.choice([0, 0, 9, 15]), rng.randrange(1, len(cfg["maps"]) + 1)
         cfg["actions"].update({"KEY_F9": "cc_learning", "KEY_F10": "multinote", "KEY_F8": "mapping", "KEY_F7": "channel"})
         for m in cfg["maps"]:
             for k in ("KEY_F7", "KEY_F8", "KEY_F9", "KEY_F10"):
